@@ -25,7 +25,10 @@ EXTENDS Naturals, Sequences, FiniteSets, TLC, Json
 
 SetToSeq(X) == CHOOSE q \in [1..Cardinality(X) -> X] : \A i, j \in 1..Cardinality(X) : i # j => q[i] # q[j]
 
-CONSTANTS Algo,
+CONSTANTS Serialised,    \* TRUE: commit holds sc.lock from C0 to its return (as coded); FALSE: commits are not mutually exclusive
+                         \* (design mutant "commit without the global lock", and the source of ADVERSARIAL schedules: replayed
+                         \* on the real code they are infeasible exactly as long as the code serialises commits)
+          Algo,
           Blocks,        \* sequence of block hashes forming a chain, oldest first
           Writes,        \* function: block -> value written to the key, or "" for none
           PreCommitted,  \* number of leading blocks already committed at the start
@@ -47,6 +50,8 @@ VARIABLES hasMap,   \* the key has a per-block map in sc.cache
           bvs,      \* the per-block map of the key: block -> value
           links,    \* hashCache: set of blocks whose link is published
           lock,     \* holder of sc.lock or None
+          cown,     \* committer -> the per-key map it created at C2 because it saw none (<<>> = uses the shared one)
+          cnew,     \* committer -> it created a map of its own
           cpc,      \* committer -> pc
           rpc,      \* reader -> pc
           rcur,     \* reader -> block currently examined
@@ -54,7 +59,7 @@ VARIABLES hasMap,   \* the key has a per-block map in sc.cache
           rres,     \* reader -> result (None while running)
           sched     \* history of process ids (schedule), for replay
 
-vars == <<hasMap, bvs, links, lock, cpc, rpc, rcur, rlink, rres, sched>>
+vars == <<hasMap, bvs, links, lock, cown, cnew, cpc, rpc, rcur, rlink, rres, sched>>
 
 RIds == DOMAIN Readers
 
@@ -63,6 +68,8 @@ Init ==
   /\ bvs = [b \in {Blocks[i] : i \in {j \in 1..PreCommitted : Writes[Blocks[j]] # None}} |-> Writes[b]]
   /\ links = {Blocks[i] : i \in 1..PreCommitted}
   /\ lock = None
+  /\ cown = [c \in Committers |-> [b \in {} |-> ""]]
+  /\ cnew = [c \in Committers |-> FALSE]
   /\ cpc = [c \in Committers |-> "C0"]
   /\ rpc = [r \in RIds |-> "G1"]
   /\ rcur = [r \in RIds |-> Readers[r]]
@@ -77,26 +84,34 @@ Put(m, k, v) == [x \in (DOMAIN m) \cup {k} |-> IF x = k THEN v ELSE m[x]]
 CStep(c) ==
   /\ sched' = Append(sched, c)
   /\ UNCHANGED <<rpc, rcur, rlink, rres>>
-  /\ CASE cpc[c] = "C0" -> /\ lock = None
-                           /\ lock' = c /\ cpc' = [cpc EXCEPT ![c] = "C1"]
-                           /\ UNCHANGED <<hasMap, bvs, links>>
+  /\ CASE cpc[c] = "C0" -> /\ Serialised => lock = None
+                           /\ lock' = IF Serialised THEN c ELSE lock
+                           /\ cpc' = [cpc EXCEPT ![c] = "C1"]
+                           /\ UNCHANGED <<hasMap, bvs, links, cown, cnew>>
        [] cpc[c] = "C1" -> IF c \in links
-                           THEN /\ lock' = None /\ cpc' = [cpc EXCEPT ![c] = "done"]   \* already committed
-                                /\ UNCHANGED <<hasMap, bvs, links>>
+                           THEN /\ lock' = IF Serialised THEN None ELSE lock
+                                /\ cpc' = [cpc EXCEPT ![c] = "done"]   \* already committed
+                                /\ UNCHANGED <<hasMap, bvs, links, cown, cnew>>
                            ELSE /\ cpc' = [cpc EXCEPT ![c] = IF Writes[c] = None THEN "C5" ELSE "C2"]
-                                /\ UNCHANGED <<hasMap, bvs, links, lock>>
-       [] cpc[c] = "C2" -> /\ cpc' = [cpc EXCEPT ![c] = "C3"]
-                           /\ UNCHANGED <<hasMap, bvs, links, lock>>
-       [] cpc[c] = "C3" -> /\ bvs' = Put(bvs, c, Writes[c])
+                                /\ UNCHANGED <<hasMap, bvs, links, lock, cown, cnew>>
+       \* C2 cache.Get(key): use the key's map, or create one (published at C4)
+       [] cpc[c] = "C2" -> /\ cnew' = [cnew EXCEPT ![c] = ~hasMap]
+                           /\ cpc' = [cpc EXCEPT ![c] = "C3"]
+                           /\ UNCHANGED <<hasMap, bvs, links, lock, cown>>
+       [] cpc[c] = "C3" -> /\ IF cnew[c] THEN /\ cown' = [cown EXCEPT ![c] = Put(@, c, Writes[c])] /\ bvs' = bvs
+                              ELSE /\ bvs' = Put(bvs, c, Writes[c]) /\ cown' = cown
                            /\ cpc' = [cpc EXCEPT ![c] = "C4"]
-                           /\ UNCHANGED <<hasMap, links, lock>>
+                           /\ UNCHANGED <<hasMap, links, lock, cnew>>
+       \* C4 cache.Add(key, map): a map created at C2 REPLACES whatever the key has by now
        [] cpc[c] = "C4" -> /\ hasMap' = TRUE
+                           /\ bvs' = IF cnew[c] THEN cown[c] ELSE bvs
                            /\ cpc' = [cpc EXCEPT ![c] = "C5"]
-                           /\ UNCHANGED <<bvs, links, lock>>
+                           /\ UNCHANGED <<links, lock, cown, cnew>>
        \* publish the link, then return (the deferred unlock has no yield point of its own)
        [] cpc[c] = "C5" -> /\ links' = links \cup {c}
-                           /\ lock' = None /\ cpc' = [cpc EXCEPT ![c] = "done"]
-                           /\ UNCHANGED <<hasMap, bvs>>
+                           /\ lock' = IF Serialised THEN None ELSE lock
+                           /\ cpc' = [cpc EXCEPT ![c] = "done"]
+                           /\ UNCHANGED <<hasMap, bvs, cown, cnew>>
 
 (* reader r.  The per-key map object seen at G1 is the one commits use (a   *)
 (* commit that finds no map creates it at C2..C4; a reader that saw none    *)
@@ -147,7 +162,7 @@ RStepOldFull(r) ==
 RStep(r) ==
   /\ rpc[r] # "done"
   /\ sched' = Append(sched, r)
-  /\ UNCHANGED <<hasMap, links, lock, cpc>>
+  /\ UNCHANGED <<hasMap, links, lock, cown, cnew, cpc>>
   /\ IF Algo = "link_then_probe" THEN RStepNew(r) ELSE RStepOldFull(r)
 
 Next == (\E c \in Committers : cpc[c] # "done" /\ CStep(c)) \/ (\E r \in RIds : RStep(r))
@@ -175,12 +190,12 @@ NoPoison == AllDone => \A i \in 1..Len(Blocks) : LET v == SeqGet(Blocks[i], Len(
 Found == AllDone =>
    \A c \in Committers : (Writes[c] # None /\ \A i \in 1..Idx(c) : Blocks[i] \in links) => SeqGet(c, Len(Blocks) + 1) = Writes[c]
 
-View == <<hasMap, bvs, links, lock, cpc, rpc, rcur, rlink, rres>>
+View == <<hasMap, bvs, links, lock, cown, cnew, cpc, rpc, rcur, rlink, rres>>
 
 \* emission of complete schedules for replay (used with a VIEW-less configuration)
 Emit == ~AllDone \/ PrintT(<<"VERIF_HIST", ToJson([blocks |-> Blocks, writes |-> [i \in 1..Len(Blocks) |-> Writes[Blocks[i]]],
                                                   pre |-> PreCommitted, committers |-> SetToSeq(Committers),
                                                   readers |-> [i \in 1..Len(SetToSeq(RIds)) |->
                                                                  <<SetToSeq(RIds)[i], Readers[SetToSeq(RIds)[i]]>>],
-                                                  sched |-> sched])>>)
+                                                  adv |-> ~Serialised, sched |-> sched])>>)
 =============================================================================
